@@ -319,8 +319,38 @@ func Solve(o *Obligation, scratch string, quickCap, fullCap int, crossCheck bool
 		return
 	}
 	ctx := context.Background()
-	// stage 1: z3-new alone, short
-	r := runSolver(ctx, solvers[0], file, quickCap)
+	// stage 1: z3-new alone, short - for quantified queries together with its E-matching-only configuration (see the
+	// contender in stage 2), whose "unsat" is taken if it comes first
+	var r solveResult
+	if strings.Contains(q, "(forall") && !o.ExpectFail {
+		s1ctx, s1cancel := context.WithCancel(ctx)
+		s1 := make(chan solveResult, 2)
+		go func() { s1 <- runSolver(s1ctx, solvers[0], file, quickCap) }()
+		go func() {
+			sp := solverSpec{"z3-new/ematching", func(f string, t int) []string {
+				return []string{"z3-new", fmt.Sprintf("-T:%d", t), "smt.auto_config=false", "smt.mbqi=false", f}
+			}}
+			er := runSolver(s1ctx, sp, file, quickCap)
+			if er.status != "unsat" {
+				er.status, er.out = "unknown", "(e-matching-only run undecided)"
+			}
+			s1 <- er
+		}()
+		a := <-s1
+		if a.status == "unsat" || a.status == "sat" {
+			r = a
+		} else {
+			b := <-s1
+			if b.status == "unsat" || b.status == "sat" || a.solver != solvers[0].name {
+				r = b
+			} else {
+				r = a
+			}
+		}
+		s1cancel()
+	} else {
+		r = runSolver(ctx, solvers[0], file, quickCap)
+	}
 	if r.status == "unsat" || r.status == "sat" {
 		o.Status, o.Solver, o.Ms, o.Output = r.status, r.solver, r.ms, r.out
 		if r.status == "sat" {
